@@ -31,6 +31,7 @@ let () =
         | ["L"; hx] -> cmds := CLoad (explode (unhex hx)) :: !cmds
         | ["L"] -> cmds := CLoad [] :: !cmds
         | ["D"] -> cmds := CDump :: !cmds
+        | ["H"] -> cmds := CHookAll :: !cmds
         | _ -> failwith ("bad " ^ l)
       done with End_of_file -> ())
   | _ -> prerr_endline "usage: drv_conf parse FILE... | script CASEFILE"; exit 2
